@@ -80,9 +80,10 @@ func (h *Handler) Listen(s *xmpp.Session) *Listener {
 		return l
 	}
 	l = &Listener{
-		s: s,
-		h: h,
-		c: make(chan *Conn),
+		s:    s,
+		h:    h,
+		c:    make(chan *Conn),
+		done: make(chan struct{}),
 	}
 	h.l[addrStr] = l
 	return l
@@ -186,7 +187,13 @@ func handleOpen(h *Handler, iq openIQ, e xmlstream.Encoder) error {
 		expect.c <- conn
 		return nil
 	}
-	l.c <- conn
+	select {
+	case l.c <- conn:
+	case <-l.done:
+		// The listener was closed while the request was being handled: nobody
+		// will ever accept the stream.
+		h.rmStream(iq.Open.SID)
+	}
 	return nil
 }
 
